@@ -6,7 +6,7 @@ check decides the premises, not the distribution:
  S2 R-WRAP  rexp samples numpy's exponential with scale = 1/rate
  S3 R-FR    the event fired is the argmin of the clocks, the time increment is that clock,
             nothing rescales either
- S4 R-LOOKUP/R-GRIDIO  the state observed at a requested time t (on which the law is judged) is the state of
+ S4 R-LOOKUP/R-GRIDRUN  the state observed at a requested time t (on which the law is judged) is the state of
             the simulated path at the last event time <= t
 """
 import ast
@@ -39,9 +39,9 @@ def check(repo, res, tier):
     # S4: the law is judged on the state *at a requested time*; for exact runs that is the last-event look-up
     from . import C15
     res.rule("R-LOOKUP", "the state reported at time t is the state of the path at the last event time <= t")
-    res.rule("R-GRIDIO", "exact runs on a grid route states through the last-event look-up with (states, times, grid)")
+    # (rule R-GRIDRUN is registered by the callee)
     C15._check_lookup(repo, res, cls_)
-    C15._check_gridio(repo, res, cls_)
+    C15._check_gridded_runs(repo, res, cls_)
     # rexp
     from ..rules import wrapx as WX
     from ..core.libmodel import Rec
